@@ -3,6 +3,7 @@ import Ucan.Driver.Policy
 import Ucan.Model.Token
 /-!
 `tok.sealed <decoder> <sealed bytes hex> <lower> <sig> <key> <letters>`   (DAG-CBOR entry points)
+`tok.cbor   <decoder> <DAG-CBOR bytes hex> <lower> <sig> <key> <letters>` (FromDagCbor entry points: no canonical-form check)
 `tok.json   <decoder> <envelope node text> <lower> <sig> <key> <letters>` (DAG-JSON entry points)
 decoder ∈ any | dlg | inv.  Oracles (computed by the harness with the libraries directly, never with go-ucan):
 lower = hex of strings.ToLower(cmd) or `-`; sig = T/F (the signature verifies under the issuer's key over the
@@ -71,6 +72,13 @@ def runToken : List String → Option String
     let b ← fromHex bytes
     let env ← mkEnv lower sig key letters
     match Cbor.accept b with
+    | none => pure "err"
+    | some n => decodeWith decoder env n
+  | ["tok.cbor", decoder, bytes, lower, sig, key, letters] => do
+    -- the FromDagCbor entry points: no canonical-form check on the bytes (that is FromSealed's), any key order is read
+    let b ← fromHex bytes
+    let env ← mkEnv lower sig key letters
+    match Cbor.decode b with
     | none => pure "err"
     | some n => decodeWith decoder env n
   | ["tok.json", decoder, node, lower, sig, key, letters] => do
